@@ -112,7 +112,7 @@ def _cases(tier, rng):
         d = dag.gen_dag(rng, rng.randint(1, 4))
         names = [f["name"] for f in d["funcs"]]
         cached = [x for x in names if rng.random() < 0.6] or [rng.choice(names)]
-        yield {"dag": d, "cache": CACHES[q % 4], "cached": cached,
+        yield {"dag": d, "cache": CACHES[q % 4], "cached": cached, "seed": q // 4,
                "history": _history(rng, d, rng.randint(2, 4 if tier == "quick" else 6))}
 
 
@@ -151,7 +151,8 @@ def _check(case):
     d, ctype, cached, hist = case["dag"], case["cache"], set(case["cached"]), case["history"]
     hist = [dict(op, kwargs=_materialise(op["kwargs"])) if op["op"] == "call" else op for op in hist]
     tmp = tempfile.mkdtemp(prefix="vf_c09_") if ctype == "disk" else None
-    kw = {"cache_kwargs": {"cache_dir": tmp, "lru_shared": False}} if ctype == "disk" else \
+    kw = {"cache_kwargs": {"cache_dir": tmp, "lru_shared": False,
+                           **({"lru_cache_size": 1} if case.get("seed", 0) % 2 else {})}} if ctype == "disk" else \
         ({"cache_kwargs": {"shared": False}} if ctype in ("lru", "hybrid") else {})
     bad = []
     try:
@@ -226,7 +227,7 @@ def _map_cases(tier, rng):
     while q < n:
         prog = progs.gen_map_program(rng, n_funcs=rng.randint(1, 3), allow_generator=False)
         q += 1
-        yield {"prog": prog, "cache": CACHES[q % 4], "repeat_values": rng.random() < 0.7}
+        yield {"prog": prog, "cache": CACHES[q % 4], "repeat_values": rng.random() < 0.7, "seed": q // 4}
 
 
 def _check_map(case):
@@ -234,7 +235,8 @@ def _check_map(case):
     want, calls = progs.denote(prog)
     ctype = case["cache"]
     tmp = tempfile.mkdtemp(prefix="vf_c09m_") if ctype == "disk" else None
-    kw = {"cache_kwargs": {"cache_dir": tmp, "lru_shared": False}} if ctype == "disk" else \
+    kw = {"cache_kwargs": {"cache_dir": tmp, "lru_shared": False,
+                           **({"lru_cache_size": 1} if case.get("seed", 0) % 2 else {})}} if ctype == "disk" else \
         ({"cache_kwargs": {"shared": False}} if ctype in ("lru", "hybrid") else {})
     for f in prog["funcs"]:
         f["cache"] = True
